@@ -1125,3 +1125,31 @@ V("C04", "pdb-element-falsy-virtual-site-reguessed", PDBF, _EL_OLD, """         
                             len(residue),
                         )
 """, "C04-R6", "PDBTrajectoryFile._read_models")
+# ---------------------------------------------------------------- after the sixth sample
+V("C15", "g-helix-scan-one-short", DCP, "            for (int j = i; empty && j <= i + 2; ++j)\n                empty = (secondary[j] == SS_LOOP || secondary[j] == SS_HELIX_3);", "            for (int j = i; empty && j < i + 2; ++j)\n                empty = (secondary[j] == SS_LOOP || secondary[j] == SS_HELIX_3);", "C15-R5", "calculate_alpha_helices")
+V("C15", "twin-g-helix-scan-strict-bound", DCP, "            for (int j = i; empty && j <= i + 2; ++j)\n                empty = (secondary[j] == SS_LOOP || secondary[j] == SS_HELIX_3);", "            for (int j = i; empty && j < i + 3; ++j)\n                empty = (secondary[j] == SS_LOOP || secondary[j] == SS_HELIX_3);", None)
+V("C15", "pi-helix-written-one-long", DCP, "                for (int j = i; j <= i + 4; ++j)\n                    secondary[j] = SS_HELIX_5;", "                for (int j = i; j <= i + 5; ++j)\n                    secondary[j] = SS_HELIX_5;", "C15-R5", "calculate_alpha_helices")
+V("C15", "pi-helix-may-not-overwrite-alpha", DCP, "empty = (secondary[j] == SS_LOOP || secondary[j] == SS_HELIX_5 || secondary[j] == SS_ALPHAHELIX);", "empty = (secondary[j] == SS_LOOP || secondary[j] == SS_HELIX_5);", "C15-R5", "calculate_alpha_helices")
+V("C07", "atom-dict-memoised-on-topology", DHPY, "    atom_dict = _construct_atom_dict(top)\n", "    atom_dict = getattr(top, \"_dihedral_atom_dict\", None)\n    if atom_dict is None:\n        atom_dict = top._dihedral_atom_dict = _construct_atom_dict(top)\n", "C07-R4", "_atom_sequence")
+V("C07", "twin-atom-dict-local-alias", DHPY, "    atom_dict = _construct_atom_dict(top)\n", "    lookup = _construct_atom_dict(top)\n    atom_dict = lookup\n", None)
+V("C01", "pdb-cryst1-skipped-without-metadata", PDBF, "        if write_metadata:\n            print(\n                f\"REMARK   1 CREATED WITH MDTraj {mdtraj.__version__}, {str(date.today())}\",\n                file=self._file,\n            )\n",
+  "        if not write_metadata:\n            return\n        print(\n            f\"REMARK   1 CREATED WITH MDTraj {mdtraj.__version__}, {str(date.today())}\",\n            file=self._file,\n        )\n", "C01-R4", "PDBTrajectoryFile._write_header")
+V("C17", "stack-lengths-from-other", TRJ, "            unitcell_angles=self.unitcell_angles,\n            unitcell_lengths=self.unitcell_lengths,\n            time=self.time,\n        )\n\n    def __getitem__", "            unitcell_angles=self.unitcell_angles,\n            unitcell_lengths=other.unitcell_lengths,\n            time=self.time,\n        )\n\n    def __getitem__", "C17-R8", "Trajectory.stack")
+V("C17", "twin-stack-cell-through-locals", TRJ, "        return self.__class__(\n            xyz=xyz,\n            topology=topology,\n            unitcell_angles=self.unitcell_angles,\n            unitcell_lengths=self.unitcell_lengths,\n            time=self.time,\n        )\n\n    def __getitem__",
+  "        cell_l, cell_a = self.unitcell_lengths, self.unitcell_angles\n        return self.__class__(\n            xyz=xyz,\n            topology=topology,\n            unitcell_angles=cell_a,\n            unitcell_lengths=cell_l,\n            time=self.time,\n        )\n\n    def __getitem__", None)
+V("C06", "cubic-repeated-root-through-acos", THC, "    } else if (delta < 0.0) {\n        double theta", "    } else if (delta <= 0.0) {\n        double theta", "C06-R7", "solve_cubic_equation")
+V("C06", "quartic-divides-by-unchecked-R", THC, "    if (R != 0.0) {\n        foo1 = 0.75*a3*a3 - R2 - 2.0*a2;", "    if (R2 != 0.0) {\n        foo1 = 0.75*a3*a3 - R2 - 2.0*a2;", "C06-R7", "quartic_equation_solve_exact")
+V("C06", "quartic-sqrt-of-unchecked-D2", THC, "    if (D2 >= 0.0) {\n        D = sqrt(D2);", "    if (E2 >= 0.0) {\n        D = sqrt(D2);", "C06-R7", "quartic_equation_solve_exact")
+V("C16", "inertia-diagonal-on-wrong-axis", "mdtraj/geometry/order.py", 'A = np.einsum("i, kij->k", masses, xyz**2)', 'A = np.einsum("j, kij->k", np.ones(3), xyz**2)', "C16-R9", "compute_inertia_tensor")
+V("C16", "inertia-about-centre-of-geometry", "mdtraj/geometry/order.py", "    center_of_mass = np.expand_dims(compute_center_of_mass(traj), axis=1)\n    xyz = traj.xyz - center_of_mass\n    masses = np.array([atom.element.mass for atom in traj.top.atoms])\n\n    eyes",
+  "    center_of_mass = np.expand_dims(compute_center_of_geometry(traj), axis=1)\n    xyz = traj.xyz - center_of_mass\n    masses = np.array([atom.element.mass for atom in traj.top.atoms])\n\n    eyes", "C16-R9", "compute_inertia_tensor")
+V("C16", "twin-inertia-einsum-respelled", "mdtraj/geometry/order.py", 'A = np.einsum("i, kij->k", masses, xyz**2)', 'A = (masses[np.newaxis, :, np.newaxis] * xyz * xyz).sum(axis=(1, 2))', None)
+V("C16", "q-tensor-normalised-by-frames", "mdtraj/geometry/order.py", "    Q_ab /= 2.0 * all_directors.shape[1]", "    Q_ab /= 2.0 * all_directors.shape[0]", "C16-R9", "_compute_Q_tensor")
+V("C16", "q-tensor-offdiagonal-slip", "mdtraj/geometry/order.py", "            Q_ab[n, 1, 2] += 3.0 * vector[1] * vector[2]", "            Q_ab[n, 1, 2] += 3.0 * vector[1] * vector[1]", "C16-R9", "_compute_Q_tensor")
+V("C16", "nematic-order-smallest-eigenvalue", "mdtraj/geometry/order.py", "    S2 = w.max(axis=1)", "    S2 = w.min(axis=1)", "C16-R9", "compute_nematic_order")
+V("C16", "gyration-tensor-transposed-contraction", "mdtraj/geometry/shape.py", '"...ji,...jk->...ik"', '"...ij,...jk->...ik"', "C16-R3", "compute_gyration_tensor")
+V("C16", "twin-gyration-tensor-matmul", "mdtraj/geometry/shape.py", '    return np.einsum("...ji,...jk->...ik", xyz, xyz) / traj.n_atoms', '    return np.einsum("fji,fjk->fik", xyz, xyz) / traj.n_atoms', None)
+V("C16", "com-mass-mean-over-frames", "mdtraj/geometry/distance.py", "        com[i, :] = x.astype(\"float64\").T.dot(masses)", "        com[i, :] = x.astype(\"float64\").mean(0) * masses.sum()", "C16-R4", "compute_center_of_mass")
+V("C16", "dipole-sign-legs-reversed", "mdtraj/geometry/thermodynamic_properties.py", "[(a.residue.atom(0).index, a.index) for a in traj.top.atoms]", "[(a.index, a.residue.atom(0).index) for a in traj.top.atoms]", "C16-R6", "dipole_moments")
+V("C16", "density-divides-by-first-volume", "mdtraj/geometry/thermodynamic_properties.py", "    densities = mass / volume_trace\n", "    densities = mass / volume_trace[0] * np.ones_like(volume_trace)\n", "C16-R6", "density")
+V("C16", "twin-density-one-expression", "mdtraj/geometry/thermodynamic_properties.py", "    densities = mass / volume_trace\n", "    densities = (1.0 / volume_trace) * mass\n", None)
